@@ -144,6 +144,10 @@ def snapshot_violation(before, after):
     if before[0] != after[0]:
         if not _dsge_extension(before[0], after[0]):
             return "genotype-changed"
+        if before[1] is not None:
+            # the individual had been mapped already (phenotype cached): nothing maps it again, so an extension of
+            # its gene lists can only have come through a list shared with another genotype
+            return "genotype-extended-through-shared-gene-list"
     if before[1] is not None and before[1] != after[1]:
         return "cached-phenotype-changed"
     for tag, f in before[2].items():
